@@ -37,6 +37,7 @@ type srvCmd struct {
 type srvStream struct {
 	cmd      chan srvCmd
 	recvd    atomic.Int64  // requests received from the client
+	answered atomic.Int64  // responses sent by the echo server
 	recvDone chan struct{} // closed when the client half-closed or the stream broke
 	ended    chan struct{} // closed when the handler returned
 	// eofEnds: return OK from the handler when the client half-closes (what a real server does)
@@ -45,9 +46,19 @@ type srvStream struct {
 
 // echoCfg makes the server side answer every request by itself: one response per request with a
 // RIB_PROGRAMMED result per operation; after failAfter responses (if >= 0) the RPC ends with err.
+//
+// end selects the "clean end" behaviour instead: the server answers only the first `answer`
+// requests, and once it has received endAfter requests it waits for endGate to be closed (the harness
+// decides when) and then returns nil from the handler - the RPC ends with status OK whatever is still
+// unanswered.
 type echoCfg struct {
 	failAfter int
 	err       error
+
+	end      bool
+	endAfter int
+	answer   int
+	endGate  chan struct{}
 }
 
 type stubServer struct {
@@ -73,6 +84,14 @@ func (s *stubServer) echoModify(e *echoCfg, stream spb.GRIBI_ModifyServer) error
 		if e.failAfter >= 0 && n >= e.failAfter {
 			return e.err
 		}
+		if e.end && n >= e.endAfter {
+			select {
+			case <-e.endGate:
+				return nil // status OK
+			case <-stream.Context().Done():
+				return status.Error(codes.Canceled, "stream context done")
+			}
+		}
 		m, err := stream.Recv()
 		if err != nil {
 			if err == io.EOF {
@@ -85,8 +104,11 @@ func (s *stubServer) echoModify(e *echoCfg, stream spb.GRIBI_ModifyServer) error
 		for _, o := range m.GetOperation() {
 			r.Result = append(r.Result, &spb.AFTResult{Id: o.GetId(), Status: spb.AFTResult_RIB_PROGRAMMED})
 		}
-		if err := stream.Send(r); err != nil {
-			return err
+		if !e.end || n < e.answer {
+			if err := stream.Send(r); err != nil {
+				return err
+			}
+			h.answered.Add(1)
 		}
 		n++
 	}
